@@ -51,7 +51,12 @@ def _run_one_(module, tier, ob, prop, seed, tmpdir):
         return {"name": ob["name"], "module": module, "verdict": "TIMEOUT", "paths": 0, "hist": {}, "wall_s": round(time.time() - t0, 1), "error": f"worker exceeded hard limit {hard:.0f}s"}
     if os.path.exists(out):
         with open(out) as f:
-            return json.load(f)
+            raw = f.read()
+        try:
+            return json.loads(raw)
+        except ValueError as ex:
+            pos = getattr(ex, "pos", 0)
+            return {"name": ob["name"], "module": module, "verdict": "ERROR", "paths": 0, "hist": {}, "wall_s": round(time.time() - t0, 1), "error": f"worker result is not JSON ({ex}): ...{raw[max(0, pos - 200):pos + 100]}..."}
     return {"name": ob["name"], "module": module, "verdict": "ERROR", "paths": 0, "hist": {}, "wall_s": round(time.time() - t0, 1), "error": "worker died: " + err}
 
 
